@@ -87,6 +87,17 @@ def run(tier, seed):
             b.knew("o2", spec3, rng.choice(STORES), rng.choice(STORES), exact); b.kadd("o2", 1.5); b.kadd("o2", -2.5)
             j0 = b.emit("kobs k"); j1 = b.emit("kobs o2"); b.emit("kmerge k o2", "err mapping-mismatch"); b.emit("kobs k", ("same", j0)); b.emit("kobs o2", ("same", j1))
             j1 = b.emit("kobs o2"); b.emit("kmerge o2 k", "err mapping-mismatch"); b.emit("kobs o2", ("same", j1))
+            # ... also when the receiver holds nothing (fresh, or used and cleared), or the argument holds nothing or only zeros: the mapping is part of
+            # what a refused call leaves as it was (the receiver still encodes with its own mapping and still refuses the other one)
+            b.knew("ev", spec, rng.choice(STORES), rng.choice(STORES), exact)
+            if rng.random() < 0.5: b.kadd("ev", 3.0); b.kadd("ev", -1.0); b.kclear("ev")
+            b.emit("kenc eb0 ev 0", "ok"); jh = b.emit("bhex eb0")
+            b.emit("kmerge ev o2", "err mapping-mismatch"); b.emit("kenc eb1 ev 0", "ok"); b.emit("bhex eb1", ("same", jh))
+            b.emit("kmerge ev o2", "err mapping-mismatch")
+            b.knew("oz", spec3, rng.choice(STORES), rng.choice(STORES), exact)
+            if rng.random() < 0.6: b.kadd("oz", 0.0, 2.5)
+            if rng.random() < 0.3: b.kadd("oz", 7.0); b.kclear("oz")
+            j0 = b.emit("kobs k"); b.emit("kmerge k oz", "err mapping-mismatch"); b.emit("kobs k", ("same", j0))
         # NewDDSketchWithExactSummaryStatisticsFromData refuses a sketch and statistics that disagree about emptiness, and accepts the others
         if rng.random() < 0.5:
             b.knew("pd", spec, rng.choice(STORES), rng.choice(STORES)); filled = rng.random() < 0.6
